@@ -1858,9 +1858,10 @@ def as_uninitialized(fn):
         parameterized_instance = self_.self
         original_initialized = parameterized_instance._param__private.initialized
         parameterized_instance._param__private.initialized = False
-        ret = fn(self_, *args, **kw)
-        parameterized_instance._param__private.initialized = original_initialized
-        return ret
+        try:
+            return fn(self_, *args, **kw)
+        finally:
+            parameterized_instance._param__private.initialized = original_initialized
     return override_initialization
 
 
